@@ -216,6 +216,8 @@ try:
     r = dassh.Reactor(inp, path=os.path.dirname(path), write_output=False)
     stage = 'sweep'
     r.temperature_sweep()
+    stage = 'postprocess'
+    r.postprocess()
     ok = all(np.all(np.isfinite(a.temp_coolant)) and np.all(np.isfinite(a.temp_duct_mw)) for a in r.assemblies)
     print('OUTCOME accepted_and_swept' if ok else 'OUTCOME nonfinite_result')
 except SystemExit:
@@ -295,6 +297,8 @@ FAULTS = {
     'num_rings_zero': lambda t: _sub(t, r'num_rings       = 2', 'num_rings       = 0'),
     'num_rings_one': lambda t: _sub(t, r'num_rings       = 2', 'num_rings       = 1'),
     'num_rings_negative': lambda t: _sub(t, r'num_rings       = 2', 'num_rings       = -3'),
+    'hotspot_input_sigma_zero': lambda t: _sub(t, r'subfactors = fftf_clad_mw', 'subfactors = fftf_clad_mw\n                input_sigma = 0'),
+    'hotspot_unknown_table': lambda t: _sub(t, r'subfactors = fftf_clad_mw', 'subfactors = no_such_table.csv'),
     'position_twice': lambda t: _sub(t, r'a1 = 2, 2, 2', 'a1 = 2, 1, 1'),
     'assignment_unknown_assembly': lambda t: _sub(t, r'        a1 = 2, 2, 2', '        zz = 2, 2, 2'),
 }
@@ -327,7 +331,7 @@ VALID = {
 
 def _base(wd, kind=None):
     from pvc import geninput as G
-    a1 = dict(pin_model='fuel', unrodded=[('lower', 0.0, 0.2, 'simple'), ('upper', 0.8, 1.0, 'simple')])
+    a1 = dict(pin_model='fuel', hotspot=True, unrodded=[('lower', 0.0, 0.2, 'simple'), ('upper', 0.8, 1.0, 'simple')])
     b = dict(_B)
     if kind == 'triple_duct':
         a1, b = dict(n_duct=3), dict(n_duct=3)
